@@ -192,7 +192,10 @@ fn chain_position(dec: &Decoded, key: &[u8]) -> &'static str {
 }
 
 pub fn run(a: &Args) -> Ctx {
-    let mut ctx = Ctx::new("C08", &["C08"], &a.replay_dir, &a.shard_name());
+    // `--as C09`: the same exploration judged for C09 ("the encoded record never exceeds its slot, writing one
+    // entry never alters the bytes of another"): only overflow-shaped findings count then
+    let as_c09 = a.get("as") == Some("C09");
+    let mut ctx = if as_c09 { Ctx::new("C09", &["C09"], &a.replay_dir, &a.shard_name()) } else { Ctx::new("C08", &["C08"], &a.replay_dir, &a.shard_name()) };
     let mut cap = a.get_u64("states", 2500) as usize;
     // shard -> (table, value-file boundary, key-file boundary). 16 KiB: width boundary of the slot-size
     // estimate (enc(offset)); 128 KiB: width boundary of the stored field (enc(offset/8)); 2 MiB: next estimate boundary
@@ -224,8 +227,10 @@ pub fn run(a: &Args) -> Ctx {
     let nk = 4 + ((salt / 3) % 2) as usize;
     let mut ctr = 7 * salt;
     let keys: Vec<Vec<u8>> = (0..nk).map(|i| key_in_bucket(n, b, lens_all[i], b'k', &mut ctr)).collect();
-    let val_sets: [&[u32]; 3] = [&[14, 15, 300, 1100], &[0, 22, 23, 5000], &[14, 126, 127, 2000]];
-    let vals: Vec<ValSpec> = val_sets[(salt % 3) as usize].iter().enumerate().map(|(i, &l)| ValSpec { len: l, seed: i as u32 + 1, kind: 0 }).collect();
+    // the last set keeps the shared first-fit list of slots >= 1024 bytes busy with three different sizes
+    // (slots 1152, 1408, 1536): a fitting free slot behind a non-fitting one, unlinking from the middle
+    let val_sets: [&[u32]; 4] = [&[14, 15, 300, 1100], &[0, 22, 23, 5000], &[14, 126, 127, 2000], &[1100, 1400, 1500, 14]];
+    let vals: Vec<ValSpec> = val_sets[((salt + a.shard as u64) % 4) as usize].iter().enumerate().map(|(i, &l)| ValSpec { len: l, seed: i as u32 + 1, kind: 0 }).collect();
     let mut transitions: Vec<Op> = Vec::new();
     for k in 0..keys.len() {
         for v in vals.iter() {
@@ -369,7 +374,10 @@ fn transition(env: &Env, st: &State, pre_dec: &Decoded, op: &Op, ctx: &mut Ctx) 
         _ => "delete",
     };
     let fail = |ctx: &mut Ctx, msg: String| {
-        let f = finding(&["C08"], "relocation", 0, format!("{msg} [table {n}, affected key at chain position '{pos}', state depth {}]", st.depth));
+        // a record that does not fit its slot / bytes of another entry altered: that is C09's statement as well
+        let overflow = ["overruns slot", "overruns file", "stranded", "not the start of a slot", "unaligned", "another entry"].iter().any(|p| msg.contains(p));
+        let owners: &'static [&'static str] = if overflow { &["C08", "C09"] } else { &["C08"] };
+        let f = finding(owners, "relocation", 0, format!("{msg} [table {n}, affected key at chain position '{pos}', state depth {}]", st.depth));
         // witness: the start image is not rebuilt from ops alone; record the transition and the state digest
         let h = History { kt: "bytes".into(), cfg: env.cfg, keys: keys.clone(), ops: vec![op.clone()], origin: format!("c08 transition from a state at depth {} (start: val boundary {}, key boundary {}); state image digest {:016x}", st.depth, env.val_boundary, env.key_boundary, st.img.digest()) };
         let stop = ctx.classify(f);
@@ -416,6 +424,19 @@ fn transition(env: &Env, st: &State, pre_dec: &Decoded, op: &Op, ctx: &mut Ctx) 
     if let Some(p) = prob {
         fail(ctx, format!("after {}: files no longer decode to the expected contents: {p}", op.text()));
         return Err(());
+    }
+    // the value slots of all other entries are byte-for-byte what they were (same offset, same bytes)
+    for e in dec.entries.iter().filter(|e| &e.key != affected) {
+        if let Some(p) = pre_dec.entries.iter().find(|p| p.key == e.key) {
+            if p.val_off == e.val_off && p.val_size == e.val_size {
+                let (a0, a1) = (p.val_off as usize, (p.val_off + p.val_size as u64) as usize);
+                if a1 <= st.img.val.len() && a1 <= post.val.len() && st.img.val[a0..a1] != post.val[a0..a1] {
+                    fail(ctx, format!("after {}: the value slot of another entry ({}) changed its bytes", op.text(), crate::util::show_bytes(&e.key)));
+                    return Err(());
+                }
+                ctx.count("untouched_value_slots_compared", 1);
+            }
+        }
     }
     // boundary crossings by width of the stored offset fields
     for e in dec.entries.iter() {
